@@ -116,6 +116,16 @@ CHECKS = {
              "IAdder report (TLC trace validation); result step never coarser than the finest operand; widening N "
              "never narrows.",
         design="7 C17", note="merge layers (Add/Maximum/Concatenate) are not yet covered"),
+    "C19": dict(
+        spec="QOps.tla + MC_QOps + Trace_QOps",
+        text="TLC proves the closed-form operation counts equal the loop-nest cardinalities (output positions from "
+             "first principles x taps x channels) on all small geometries; the real QTools is run on one-layer models "
+             "over the geometry lattice (kernel, stride, padding incl. causal, dilation, channels, depth multiplier, "
+             "pool window, merge) and on multi-layer models for every memory placement option, and TLC judges every "
+             "reported count against QOps!MACs and every energy report for non-negativity, entries = documented "
+             "functions (harness re-evaluation, 2 decimals), total = sum of entries, extracted sum = selected "
+             "entries.",
+        design="7 C19", note="energy polynomials are evaluated in float by the harness; TLC decides the accounting on integers x100"),
 }
 
 
